@@ -60,3 +60,54 @@ claim("C02", "abstract interpretation of the sweep dispatch over the 16-bit unit
       "and a buffer shorter than the payload makes the constructor raise.",
       "Trusted: agstatic interpreter and bit domain; payload size agreement is checked on a grid of sizes and extended to all sizes by a syntactic fragment check (affine with parity). "
       "Not decided: equality of the yielded stream with an assembled program.")
+
+
+# ---- rules written by the cluster builders: texts come from notes/CNN.md (tools/claims_from_notes.py) -------------
+TECHNIQUE = {
+    "C05": "def-use provenance of API getters to struct slots / LEB reads vs an independent DEX layout table",
+    "C07": "map-order independence conditions: single sorted parse loop, absolute seeks, parse-time section reads within the declared dependency closure",
+    "C08": "unit typing + affine forms of try/catch ranges and handler addresses; sibling guard agreement",
+    "C09": "must-raise guard dominance on the CFG with predicate evaluation over wrong-value partitions; header-before-map ordering",
+    "C10": "leader-set dataflow + opcode-class agreement (BasicOPCODES = determineNext domain = spec flow opcodes) + block contiguity",
+    "C11": "per-opcode-class successor formulas as affine forms with units vs spec; child/father mirroring",
+    "C12": "order-type abstract interpretation of the try-range predicate over all weak orderings of 4 points",
+    "C13": "origin typing (CUR/TARGET/OFF) of xref-recording calls, branch opcode sets, to/from pairing, resolution-key agreement",
+    "C14": "origin typing of field xref recorders: receiver must be the TARGET field's class",
+    "C15": "origin typing of string / new-instance / const-class xref recorders and their opcode sets",
+    "C16": "effect discipline of Analysis.add + layering rule (no per-DEX definition lookup while creating xrefs)",
+    "C17": "index-domain typing of the rename hook store + cache-invalidation pairing",
+    "C21": "symbolic handler-signature extraction for every INSTRUCTION_SET slot vs an independent opcode->Java operator table",
+    "C22": "unordered-iteration order-sensitivity analysis (element-kind inference x consumption kind) over the decompiler",
+    "C24": "abstract string interpretation of both get_type renderers on symbolic descriptor classes; strip-charset and prefix-guard rules",
+    "C25": "truth-table evaluation of the short-circuit merge sites, Condition.neg, CONDS and writer negation",
+    "C29": "recursion-SCC rule: a checked, growing, threaded, per-call-fresh visited state on every cycle of the resolver",
+    "C32": "verification-gating typestate on the CFG: a certificate reaches a return only through a successful verify on the right data",
+    "C33": "constant agreement of signing-block ids, flag/own-id boolean dataflow, first-match selection, guard truth table",
+    "C34": "regex-language equivalence (NFA/DFA over re._parser AST) + KeyError->FileNotPresent mapping + unfiltered name list",
+    "C35": "loop and recursion termination certificates (checked read, forward seek, monotone counter, finite collection, event consumer, advancing recursion) over the parser call graph",
+    "C36": "check-then-act rule on the session table: the primary key may not derive from an unlocked read of the same table",
+    "C37": "taint analysis from DEX-derived names to filesystem sinks with containment-sanitizer recognisers",
+    "C38": "fact-preservation (typestate) analysis of clean_file_name with regex character-class coverage",
+    "C39": "order-type abstract interpretation of the API-level fallback decisions + falsy-zero sentinel rule",
+    "C40": "offset provenance from get_instructions_idx, unit typing (code units vs bytes), sibling agreement of payload address computations",
+}
+
+# properties whose builder-written rule has been reviewed, is silent on the unchanged tree and passes its self-test
+INTEGRATED = ["C21", "C24", "C09", "C32", "C29", "C36"]
+
+
+def _load_integrated():
+    import json
+    import os
+    p = os.path.join(os.path.dirname(os.path.abspath(__file__)), "claims_notes.json")
+    notes = json.load(open(p)) if os.path.exists(p) else {}
+    for pid in INTEGRATED:
+        if pid in CLAIMED:
+            continue
+        n = notes.get(pid) or {}
+        text = n.get("text") or TECHNIQUE[pid]
+        note = n.get("note") or "Trusted: CPython ast, agstatic engine, spec tables transcribed in the rule."
+        claim(pid, TECHNIQUE[pid], text[:900], ("Trusted base: " + note)[:700])
+
+
+_load_integrated()
